@@ -130,7 +130,10 @@ func (c *Conc) do(op COp) string {
 			}
 			return "err:" + err.Error()
 		}
-		return model.JSON(o.(*shapes.Rec))
+		js := model.JSON(o.(*shapes.Rec))
+		// what a read returns belongs to the caller, who may write to it without any lock
+		Scribble(o.(*shapes.Rec))
+		return js
 	case "exist":
 		u := c.uuidOf(op.Lid)
 		if u == "" {
@@ -180,7 +183,20 @@ func (c *Conc) do(op COp) string {
 		for _, r := range out {
 			objs = append(objs, r)
 		}
-		return lidJSON(objs)
+		js := lidJSON(objs)
+		for _, r := range out {
+			Scribble(r)
+		}
+		return js
+	case "misuse":
+		// the documented misuse of an Assign target panics; the caller recovers and
+		// the handle must keep serving everybody
+		func() {
+			defer func() { recover() }()
+			var wrong []*shapes.Small
+			c.db.AssignAll(rec0(), &wrong)
+		}()
+		return "misused"
 	case "search":
 		sr := c.db.Search(rec0(), op.Q.First.Path, op.Q.First.Op, op.Q.First.V.Go())
 		for _, cj := range op.Q.Rest {
@@ -364,6 +380,8 @@ func cstep(cons map[string]model.Cons, asyncMode bool, m *model.Model, op COp, o
 			return false, m
 		}
 		return true, model.New(cons)
+	case "misuse":
+		return out == "misused", m
 	case "count":
 		return out == fmt.Sprint(len(m.Objs)), m
 	case "assignindex":
@@ -508,7 +526,7 @@ func genConc(r *simrt.Rand, cfg *Config, pools *Pools, heavyReaders, linear bool
 	if heavyReaders {
 		kinds = []string{"put", "put", "del", "all", "all", "assignall", "assignall", "search", "search", "count", "delall", "many", "sdel", "get"}
 	}
-	kinds = append(kinds, "close")
+	kinds = append(kinds, "close", "misuse")
 	if !linear {
 		kinds = append(kinds, "bulk", "bulk", "create")
 	}
